@@ -86,7 +86,7 @@ class Concretizer:
         if self.pt is None:
             return out
         for n in list(self.names):
-            if mval(self.m, spec.point_has(self.I, self.pt, n)) is True:
+            if mval(self.m, spec.point_has(self.I, self.pt, n)) is True or not getattr(self, "respect_missing", True):
                 v = mnum(self.m, spec.point_val(self.I, self.pt, n))
                 out[self.name_str(n)] = jnum(v if v is not None else Fraction(1))
         return out
@@ -258,7 +258,7 @@ class Concretizer:
         dv = mnum(m, d.dV(x)) if x is not None else Fraction(0)
         if dv is None:
             dv = Fraction(0)
-        if not S:
+        if not S and getattr(self, "respect_missing", True):
             self.notes.append(f"{o.name}: coordinate missing")
             return ["Add", ["Constant", jnum(V) if not isinstance(V, float) else V], ["Variable", "zz_missing"]]
         if not D:
@@ -284,7 +284,7 @@ class Concretizer:
         return jnum(fr) if fr.denominator != 1 else int(fr)
 
 
-def build_scenario(I, res, model):
+def build_scenario(I, res, model, obligation_name=""):
     """Uses the replay descriptor the family left in I.ghost['replay']."""
     rp = I.ghost.get("replay")
     if rp is None or model is None:
@@ -300,6 +300,8 @@ def build_scenario(I, res, model):
             names.append(x)
         pt = rp.get("pt")
         cz = Concretizer(I, model, pt, names)
+        # whether a coordinate is missing only matters for the obligations that talk about it
+        cz.respect_missing = any(t in obligation_name for t in ("CoordinateMissing", "=>S", "notS", "number-"))
         sc = {"kind": rp["kind"]}
         if rp.get("root") is not None:
             sc["tree"] = cz.tree(rp["root"], x)
